@@ -214,6 +214,11 @@ def mkCtx (r : ResizeReq) (status : String) (got : Array Int) (fillByte : Nat) :
 
 /-- `resize` request with oracles -/
 def handleResizeChecked (fs : List (String × String)) : String :=
+  let outside := getField fs "guard" == some "out"
+  let gotS := (getField fs "got").getD ""
+  -- C03: outside the documented head-room (sum |w| >= 4) integer overflow may panic in the checked build and
+  -- the wrapped arithmetic is not modelled: a panic is accepted there, only a crash is not
+  if outside then (if gotS.startsWith "ok:" || gotS.startsWith "err:" || gotS.startsWith "panic:" then "OK" else "SPEC-FAIL outcome " ++ gotS.take 60) else
   let base := handleResize fs
   match getField fs "check" with
   | none => base
@@ -238,6 +243,11 @@ def handleResizeChecked (fs : List (String × String)) : String :=
           if skip then none else
           match name with
           | "copy" => checkCopy c
+          | "nopanic" => none   -- judged before the model comparison, see handleResizeChecked
+          | "simd" => (match gotB with
+            | some (stB, b2) => if stB != gst then some s!"portable back-end ended with {stB}, {r.ext} with {gst}" else
+                (compareBuf r (alphaPathOf r) b2 c.got).map fun e => s!"{r.ext} differs from the portable back-end: {e}"
+            | none => some "simd needs gotB")
           | "rel" => (match getField fs "rel" with | some "ok" => none | some m => some s!"relational oracle of the harness: {m}" | none => some "rel needs the rel field")
           | "nearest" => checkNearest c
           | "uniform" => checkUniform c
